@@ -172,7 +172,9 @@ def finish(F, R):
     why = ''
     n_true = 0
     stag_ok = True
+    from .c03 import ret_bool
     for p in prs:
+        rb = ret_bool(p.ret, p.decisions)
         ge = None
         started = None
         fixed = None
@@ -185,7 +187,7 @@ def finish(F, R):
         stores = [(bb, s) for bb in p.blocks for s in b.blocks[bb]['stmts'] if s['k'] == 'assign']
         st_state = [s for bb, s in stores if pretty_place(b, s['lhs']) == '(*self).state']
         st_stag = [s for bb, s in stores if pretty_place(b, s['lhs']) == '(*self).stagnant']
-        if str(p.ret) == 'True':
+        if rb is True:
             n_true += 1
             if ge is not True:
                 ok = False
@@ -203,7 +205,7 @@ def finish(F, R):
                 ok = False
                 why = 'the state changes on a path that does not report completion'
         if st_stag:
-            if not (str(p.ret) == 'True' and fixed is True and describe_rv(b, st_stag[0]['rv']) == 'True'):
+            if not (rb is True and fixed is True and describe_rv(b, st_stag[0]['rv']) == 'True'):
                 stag_ok = False
     R.check(ok and n_true >= 1, 'B.C06.finish', 'update_tween', why or 'no completing path', detail={'paths': len(prs), 'finishing': n_true}, where=b.file)
     R.check(stag_ok, 'B.C06.stagnant', 'only-on-finish-fixed', 'stagnant is set outside the finish edge of a fixed target',
